@@ -132,7 +132,7 @@ func zzUtxoIndexStep() {
 		ins = append(ins, &common2.Input{Previous: common2.OutPoint{TxID: T.Hash(), Index: uint16(i)}})
 	}
 	var sOuts []*common2.Output
-	for i := 0; i < nd.Choose("newOutputs", 3); i++ {
+	for i, zzn := 0, nd.Choose("newOutputs", 3); i < zzn; i++ {
 		sOuts = append(sOuts, &common2.Output{Value: common.Fixed64(nd.Choose("sValue", 2)), ProgramHash: addrs[nd.Choose("sAddr", 2)], Payload: &outputpayload.DefaultOutput{}})
 	}
 	S := &zzIdxTx{id: common.Uint256{0x70, 2}, ins: ins, outs: sOuts}
